@@ -1,9 +1,9 @@
 #!/bin/sh
 # regression over every kept seeded change: each must still be KILLED by the quick check of its property
+# usage: tools/seedall.sh [-j N] [IDs...]
 cd "$(dirname "$0")/.."
-for d in $(ls seeded | sort); do
-  if [ -n "$1" ] && ! echo " $* " | grep -q " $d "; then continue; fi
-  p=$(echo $d | sed 's/b$//')
-  out=$(tools/seedcheck.py $d --checks $p 2>&1 | tail -1 | cut -c1-160)
-  echo "$d $out"
-done
+J=3
+if [ "$1" = "-j" ]; then J=$2; shift; shift; fi
+ids="$*"
+[ -z "$ids" ] && ids=$(ls seeded | sort)
+echo $ids | tr ' ' '\n' | xargs -P $J -I{} sh -c 'd={}; p=$(echo $d | sed "s/b$//"); out=$(tools/seedcheck.py $d --checks $p --shards 5 2>&1 | tail -1 | cut -c1-140); echo "$d $out"'
